@@ -75,8 +75,10 @@ PIECEWISE = {
     'N7': [['h2o_lo', 'h2o_hi'], ['co2_lo', 'h2o_hi'], ['e0', 'e1'], ['alt', 'ads']],
     'N9': [['mix', 'mix2'], ['e-2', 'e1'], ['mix', 'e0', 'mix2'], ['e4', 'mix2', 'e-1']],
 }
-SINGLES_Q = {'N7': ['e0', 'e3', 'e4', 'h2o_lo', 'alt'], 'N9': ['e-2', 'e-1', 'e4', 'mix'],
-             'SH': ['A', 'C', 'E', 'h2o']}
+for _f in POLYS:
+    POLYS[_f]['zero'] = {0: 0.0}           # all-zero Cp: the fitters' "no temperature dependence" shortcut
+SINGLES_Q = {'N7': ['e0', 'e3', 'e4', 'h2o_lo', 'alt', 'zero'], 'N9': ['e-2', 'e-1', 'e4', 'mix', 'zero'],
+             'SH': ['A', 'C', 'E', 'h2o', 'zero']}
 
 TMID_FORMS = {'N7': ['none', 'scalar', 'list'],
               'N9': ['none', 'scalar', 'list0', 'list1', 'list2', 'array1'],
@@ -334,6 +336,8 @@ def _tref_value(case, breaks):
 
 
 def _source_kind(case):
+    if case['src'] == 'zero':
+        return 'zeroCp'
     return 'piecewise' if '|' in case['src'] else 'single'
 
 
@@ -709,7 +713,7 @@ def _data_cases(fam, tier):
             # quick: every unit on two sources and two windows; a unit subset on everything
             for src, win, n_T, tref in itertools.product(srcs, wins, nts, TREF_MODES[fam]):
                 if tier == 'quick' and u not in UNITS_Q and not (
-                        src in ('h2o', 'E') and win in ([298.15, 1000.0], [100.0, 3000.0]) and n_T == 50):
+                        src in ('h2o', 'E', 'zero') and win in ([298.15, 1000.0], [100.0, 3000.0]) and n_T == 50):
                     continue
                 cases.append(dict(part='data', fam=fam, src=src, win=list(win), n_T=n_T, tmid='n/a',
                                   tref=tref, units=u))
@@ -731,16 +735,17 @@ def _all_cases(part, fam, tier):
 
 
 # shard counts proportional to the measured cost of each part (cases are dealt round-robin)
-N_SHARDS = {('data', 'N7'): 12, ('data', 'N9'): 4, ('data', 'SH'): 3,
-            ('model', 'N7'): 2, ('model', 'SH'): 4, ('model', 'N9'): 9}
+N_SHARDS = {'quick': {('data', 'N7'): 12, ('data', 'N9'): 4, ('data', 'SH'): 3,
+                      ('model', 'N7'): 2, ('model', 'SH'): 4, ('model', 'N9'): 9},
+            'thorough': {('data', 'N7'): 20, ('data', 'N9'): 8, ('data', 'SH'): 16,
+                         ('model', 'N7'): 3, ('model', 'SH'): 14, ('model', 'N9'): 35}}
 
 
 def shards(tier):
     out = []
-    mult = 1 if tier == 'quick' else 3
-    for (part, fam), n in sorted(N_SHARDS.items()):
-        for k in range(n * mult):
-            out.append(dict(part=part, fam=fam, k=k, n=n * mult, tier=tier))
+    for (part, fam), n in sorted(N_SHARDS[tier].items()):
+        for k in range(n):
+            out.append(dict(part=part, fam=fam, k=k, n=n, tier=tier))
     return out
 
 
@@ -752,7 +757,7 @@ def bounds(tier):
             sources={f: (SINGLES_Q[f] if q else sorted(POLYS[f])) + ['|'.join(p) for p in PIECEWISE.get(f, [])]
                      for f in ('N7', 'N9', 'SH')},
             T_mid_forms=TMID_FORMS, T_ref_positions=TREF_MODES,
-            shomate_units=('all 16 on 2 sources x 2 windows, %s on everything' % UNITS_Q) if q else UNITS,
+            shomate_units=('all 16 on 3 sources x 2 windows, %s on everything' % UNITS_Q) if q else UNITS,
             product='complete', cases={f: len(_data_cases(f, tier)) for f in ('N7', 'N9', 'SH')}),
         from_model=dict(
             species=SPECIES, nasa9=dict(n_interval=[1, 2, 3], T_mid=['none', 'given', 'scalar'],
